@@ -296,13 +296,6 @@ def r_traverse(idx, rep):
     if len(loops) != 1:
         raise AnalysisError("query_overlap: expected exactly one while loop, found %d" % len(loops))
     loop = loops[0]
-    # the traversal is the ONLY place where the query decides anything: no return before the loop (a pre-filter on the query box
-    # - 'empty', 'inverted', 'too small' - answers for boxes the closed-interval predicate would have matched)
-    early = [st for st in f.node.body if st is not loop and st.lineno < loop.lineno and any(isinstance(x, ast.Return) for x in ast.walk(st))]
-    rep.check(not early, rule, fk + "|no exit before the traversal", "%s:%d" % (f.module.relpath, (early[0].lineno if early else loop.lineno)),
-              "query_overlap returns before the traversal when `%s`: degenerate but valid query boxes (flat, segment, point: lo == hi on an axis) overlap stored boxes "
-              "under the closed-interval test and must be answered by the traversal" % (u(early[0].test) if early and isinstance(early[0], ast.If) else (u(early[0])[:80] if early else "")),
-              "single exit")
     # which list is the stack: the one compared in the loop test
     stackname = None
     for n in ast.walk(loop.test):
@@ -310,6 +303,10 @@ def r_traverse(idx, rep):
             stackname = n.id
     if stackname is None:
         raise AnalysisError("query_overlap: cannot identify the traversal stack")
+    # the traversal is the ONLY place where the query decides anything: whatever returns or empties the stack in front of it must imply
+    # that the query box and the root box do not overlap (a pre-filter on 'empty', 'inverted', 'too small' boxes answers for boxes the
+    # closed-interval predicate would have matched)
+    r_prefilter(idx, rep, f, fk, loop, stackname, {p_test: "A", "%s[%s]" % (p_aabbs, p_root): "B"}, [p_root])
     nodevar, shortened = _pop_var(loop, stackname)
     rep.check(nodevar is not None and shortened, rule, fk + "|pop", f.where,
               "the loop does not remove the element it reads from %s (pop-before-push discipline)" % stackname,
@@ -445,6 +442,7 @@ def r_traverse(idx, rep):
         raise AnalysisError("query_overlap_of_other_tree: expected one while loop")
     loop = loops[0]
     stackname = [n.id for n in ast.walk(loop.test) if isinstance(n, ast.Name)][-1]
+    r_prefilter(idx, rep, g, gk, loop, stackname, {"%s[%s]" % (a1, r1): "A", "%s[%s]" % (a2, r2): "B"}, [r1, r2])
     nodevar, shortened = _pop_var(loop, stackname)
     rep.check(nodevar is not None and shortened, rule, gk + "|pop", g.where, "pop-before-push discipline broken")
     if nodevar is None:
@@ -1161,3 +1159,178 @@ def r_unique(idx, rep):
     gp = g.params() if g else []
     ok = len(cs) == 1 and [u(a) for a in cs[0].args[:4]] == [gp[1], "self.root", "self.nodes", "self.aabbs"] and len(cs[0].args) == 4 and not cs[0].keywords
     rep.check(ok, rule, MOD + "::AabbTree.overlaps_aabb|roles", g.where if g else "?", "box query arguments are not (aabb, self.root, self.nodes, self.aabbs) or request an early exit")
+
+
+# ---------------------------------------------------------------------------------------------------------------------------------
+# Pre-filters in front of a traversal: anything that returns, or takes the root off the stack, before the loop answers the query
+# without the traversal.  That is sound exactly when its condition implies that the two boxes do not overlap under the closed-
+# interval test; the condition is evaluated (by this module's own evaluator — nothing of the repository is executed) on a grid of
+# integer boxes that realises every order type of the four bounds of an axis.
+
+def _num_eval(e, env):
+    if isinstance(e, ast.Constant) and isinstance(e.value, (int, float, bool)):
+        return e.value
+    if isinstance(e, ast.Name):
+        if e.id in env:
+            return env[e.id]
+        raise _NotModelled("name `%s`" % e.id)
+    if isinstance(e, (ast.List, ast.Tuple)):
+        return [_num_eval(x, env) for x in e.elts]
+    if isinstance(e, ast.Subscript):
+        v = _num_eval(e.value, env)
+        for ix in index_elts(e):
+            if isinstance(ix, ast.Slice):
+                if ix.lower is None and ix.upper is None and ix.step is None:
+                    raise _NotModelled("slice `%s`" % u(e))
+                raise _NotModelled("slice `%s`" % u(e))
+            k = _num_eval(ix, env)
+            if not isinstance(k, int) or not isinstance(v, list):
+                raise _NotModelled("index `%s`" % u(e))
+            v = v[k]
+        return v
+    if isinstance(e, ast.Call):
+        cn = (call_name(e) or "")
+        short = cn.split(".")[-1]
+        args = [_num_eval(a, env) for a in e.args]
+        if short == "array" and len(args) == 1:
+            return args[0]
+        if short in ("max", "maximum", "fmax") and len(args) == 2 and not any(isinstance(a, list) for a in args):
+            return max(args)
+        if short in ("min", "minimum", "fmin") and len(args) == 2 and not any(isinstance(a, list) for a in args):
+            return min(args)
+        if short in ("abs", "fabs") and len(args) == 1 and not isinstance(args[0], list):
+            return abs(args[0])
+        if short == "aabb_overlap" and len(args) == 2:
+            return all(args[0][k][0] <= args[1][k][1] and args[1][k][0] <= args[0][k][1] for k in range(3))
+        raise _NotModelled("call `%s`" % u(e)[:50])
+    if isinstance(e, ast.BinOp):
+        a, b = _num_eval(e.left, env), _num_eval(e.right, env)
+        if isinstance(a, list) or isinstance(b, list):
+            raise _NotModelled("array arithmetic `%s`" % u(e)[:50])
+        if isinstance(e.op, ast.Add):
+            return a + b
+        if isinstance(e.op, ast.Sub):
+            return a - b
+        if isinstance(e.op, ast.Mult):
+            return a * b
+        raise _NotModelled("operator in `%s`" % u(e)[:50])
+    if isinstance(e, ast.UnaryOp):
+        v = _num_eval(e.operand, env)
+        if isinstance(e.op, ast.Not):
+            return not v
+        if isinstance(e.op, ast.USub) and not isinstance(v, list):
+            return -v
+        raise _NotModelled("operator in `%s`" % u(e)[:50])
+    if isinstance(e, ast.BoolOp):
+        vals = [_num_eval(v, env) for v in e.values]
+        return all(vals) if isinstance(e.op, ast.And) else any(vals)
+    if isinstance(e, ast.Compare):
+        out = True
+        for op, x, y in compare_triples(e):
+            a, b = _num_eval(x, env), _num_eval(y, env)
+            if isinstance(a, list) or isinstance(b, list):
+                raise _NotModelled("array comparison `%s`" % u(e)[:50])
+            out = out and {"<": a < b, "<=": a <= b, ">": a > b, ">=": a >= b, "==": a == b, "!=": a != b}[op]
+        return out
+    raise _NotModelled("expression `%s`" % u(e)[:50])
+
+
+def _box_grid():
+    """pairs of integer boxes: on one axis all (lo1, hi1, lo2, hi2) in 0..3 with lo <= hi, the other two axes overlapping / touching / apart"""
+    import itertools
+    other = (((0, 3), (1, 2)), ((0, 1), (1, 2)), ((0, 1), (2, 3)), ((1, 1), (1, 1)), ((1, 1), (0, 2)))
+    iv = [(lo, hi) for lo in range(4) for hi in range(lo, 4)]
+    for axis in range(3):
+        for a1, a2 in itertools.product(iv, iv):
+            for o1, o2 in itertools.product(other, other):
+                A, B = [None] * 3, [None] * 3
+                rest = [k for k in range(3) if k != axis]
+                A[axis], B[axis] = list(a1), list(a2)
+                A[rest[0]], B[rest[0]] = list(o1[0]), list(o1[1])
+                A[rest[1]], B[rest[1]] = list(o2[0]), list(o2[1])
+                yield A, B
+
+
+def r_prefilter(idx, rep, f, fk, loop, stackname, boxes, sentinels, rule="R-TRAVERSE"):
+    """boxes: {text of an expression: 'A' | 'B'}; sentinels: names that may be INDEX_NONE (roots)"""
+    from ..core.inline import expand_helpers
+    C = _consts(idx)
+    pm = parent_map(f.node)
+    pre = [st for st in f.node.body if st is not loop and st.lineno < loop.lineno]
+    seed_seen = False
+    effects = []
+    for top in pre:
+        for st in ast.walk(top):
+            if isinstance(st, ast.Return):
+                effects.append((st, "returns"))
+            elif isinstance(st, ast.Assign) and any(u(t) == stackname for t in st.targets):
+                if st in f.node.body and not seed_seen and isinstance(st.value, ast.List):
+                    seed_seen = True
+                else:
+                    effects.append((st, "replaces the stack"))
+            elif isinstance(st, ast.Expr) and isinstance(st.value, ast.Call) and (call_name(st.value) or "") in (stackname + ".pop", stackname + ".clear", stackname + ".remove"):
+                effects.append((st, "takes the root off the stack"))
+            elif isinstance(st, ast.Delete) and any(stackname in u(t) for t in st.targets):
+                effects.append((st, "takes the root off the stack"))
+    key = fk + "|no exit before the traversal"
+    where0 = "%s:%d" % (f.module.relpath, loop.lineno)
+    if not effects:
+        rep.ok(rule, key, where0, "nothing answers the query before the traversal")
+        return
+    # local definitions in front of the loop (substituted into the conditions)
+    defs = {}
+    for top in pre:
+        for st in ast.walk(top):
+            if isinstance(st, ast.Assign) and len(st.targets) == 1 and isinstance(st.targets[0], ast.Name) and st.targets[0].id != stackname:
+                defs[st.targets[0].id] = st.value
+
+    class Sub(ast.NodeTransformer):
+        def visit_Subscript(self, n):
+            if u(n) in boxes:
+                return ast.Name(id="__box" + boxes[u(n)], ctx=ast.Load())
+            return self.generic_visit(n)
+
+        def visit_Name(self, n):
+            if u(n) in boxes:
+                return ast.Name(id="__box" + boxes[u(n)], ctx=ast.Load())
+            if n.id in defs and isinstance(n.ctx, ast.Load):
+                return Sub().visit(__import__("copy").deepcopy(defs[n.id]))
+            return n
+    for st, what in effects:
+        where = "%s:%d" % (f.module.relpath, st.lineno)
+        chain = _guard_chain(pm, st, f.node)
+        atoms = []
+        for test, pol in chain:
+            if _is_sentinel_test(test, C, sentinels):
+                if _sentinel_polarity(test, C) == pol:
+                    atoms = None          # only for an empty tree: nothing to find, skipping is right
+                    break
+                continue                  # 'root is a real node': true in the case we examine
+            atoms.append((test, pol))
+        if atoms is None:
+            rep.ok(rule, key + " (%s)" % what, where, "only for an empty tree")
+            continue
+        try:
+            conds = []
+            for test, pol in atoms:
+                e = expand_helpers(idx, f.module, test, depth=3)
+                for _ in range(4):
+                    e = Sub().visit(e)
+                e = expand_helpers(idx, f.module, e, depth=3)
+                conds.append((e, pol))
+            witness = None
+            for A, B in _box_grid():
+                env = {"__boxA": A, "__boxB": B, "True": True, "False": False}
+                if all(bool(_num_eval(e, env)) == pol for e, pol in conds):
+                    if all(A[k][0] <= B[k][1] and B[k][0] <= A[k][1] for k in range(3)):
+                        witness = (A, B)
+                        break
+        except _NotModelled as ex:
+            rep.unknown(rule, key + " (%s)" % what, where, "the condition in front of the traversal could not be evaluated (%s)" % ex)
+            continue
+        cond_txt = " and ".join(("" if pol else "not ") + "(" + u(t)[:70] + ")" for t, pol in atoms) or "always"
+        rep.check(witness is None, rule, key, where,
+                  "before the traversal the function %s when `%s`; for the boxes %s and %s — which overlap under the closed-interval test (touching / flat boxes "
+                  "count) — that condition holds, so overlapping leaves are never reported; only a condition that implies `not aabb_overlap(...)` may skip the traversal"
+                  % (what, cond_txt, witness[0] if witness else "", witness[1] if witness else ""),
+                  "pre-filter `%s` implies non-overlap on all %d grid configurations" % (cond_txt[:60], 3 * 100 * 25))
